@@ -119,9 +119,12 @@ func (o crashOp) String() string {
 func crashAlphabet(single bool) []crashOp {
 	big1 := strings.Repeat("0123456789abcdef", 2560)         // 40 KiB
 	big2 := strings.Repeat("fedcba9876543210", 2560)[:40000] // different content and size
+	big3 := strings.Repeat("0123456789ABCDEF", 2560) // same size as big1, other content
 	ops := []crashOp{
 		{kind: "put", b: "aaa", k: "k", body: "A"},
 		{kind: "put", b: "aaa", k: "k", body: "BBB"},
+		{kind: "put", b: "aaa", k: "k", body: "Z"}, // same size as "A"
+		{kind: "putbig", b: "aaa", k: "k", body: big3},
 		{kind: "put", b: "aaa", k: "d/x", body: "C"},
 		{kind: "putbig", b: "aaa", k: "k", body: big1},
 		{kind: "putbig", b: "aaa", k: "k", body: big2},
@@ -201,6 +204,35 @@ func matchStore(w *drv.World, m *model.Store, universeBuckets []string) (diff st
 		}
 	}
 	return "", ""
+}
+
+// storeIntegrity: whatever a crash left behind, an object the store serves must be
+// consistent in itself - the ETag is the MD5 of the bytes served and the listing
+// entry describes the same object.
+func storeIntegrity(w *drv.World) string {
+	names, lr := w.ListBuckets()
+	if lr.Status != 200 {
+		return ""
+	}
+	for _, b := range names {
+		lp := w.List(b, "")
+		if lp.Status != 200 {
+			continue
+		}
+		for _, e := range lp.Entries {
+			v := w.Get(b, e.Key)
+			if v.Status != 200 {
+				continue
+			}
+			if v.ETag != drv.ETagOf(v.Body) {
+				return fmt.Sprintf("GET %s/%s serves %d bytes with ETag %s, but their MD5 is %s", b, e.Key, len(v.Body), v.ETag, drv.ETagOf(v.Body))
+			}
+			if e.ETag != v.ETag || e.Size != int64(len(v.Body)) {
+				return fmt.Sprintf("listing entry %s/%s (etag %s, size %d) does not describe the object served (etag %s, %d bytes)", b, e.Key, e.ETag, e.Size, v.ETag, len(v.Body))
+			}
+		}
+	}
+	return ""
 }
 
 type crashJobResult struct {
@@ -402,6 +434,14 @@ func c15RunHistory(kind drv.Kind, alpha []crashOp, hist []int, res *crashJobResu
 			v := *base
 			v.Sig, v.Msg = sig("C15", class, "crash", "in-flight="+inflight, "open-failed"), fmt.Sprintf("the store does not open after the crash: %v", err)
 			report(&v)
+			os.RemoveAll(imgDir)
+			continue
+		}
+		if msg := storeIntegrity(rw); msg != "" {
+			v := *base
+			v.Sig, v.Msg = sig("C15", class, "crash", "in-flight="+inflight, "etag-does-not-match-body"), "after the kill the reopened store serves an object that is inconsistent in itself: "+msg
+			report(&v)
+			rw.Close()
 			os.RemoveAll(imgDir)
 			continue
 		}
